@@ -134,6 +134,27 @@ int main(int argc, char** argv) {
     std::string g2 = outcome([&] { PathsD r = MinkowskiSum(PathD{PointD(0.0, 0.0), PointD(1.0, 0.0), PointD(1.0, 1.0)}, PathD{PointD(3e16, 0.0), PointD(3e16, 3e16), PointD(0.0, 3e16)}, true, 2); return std::string(r.empty() ? "empty" : "ran"); });
     must_report("minkowskiD.range", "MinkowskiSum(PathD) coordinates 3e16 precision=2 (scaled 3e18 > MAX_COORD)", g2, false);
   }
+  // per-axis scales: each coordinate is checked against the range with ITS OWN scale (x*sx, y*sy); a value that only fits with
+  // the other axis' scale must be reported, one that only overflows with the other axis' scale must not
+  {
+    struct Cs { double sx, sy, x, y; bool oor; };
+    static const Cs cs[] = {
+      {1.0, 1e10, 100.0, 1e12, true},  {1e10, 1.0, 1e12, 100.0, true},  {1.0, 1e10, 100.0, -1e12, true}, {1e10, 1.0, -1e12, 100.0, true},
+      {1.0, 1e10, 1e12, 100.0, false}, {1e10, 1.0, 100.0, 1e12, false}, {1.0, 1e10, -1e12, -100.0, false}, {1e-3, 1e3, 1e20, 1e14, false},
+      {1e-3, 1e3, 1e14, 1e20, true},   {2.0, 0.5, 2e18, 4e18, true},    {0.5, 2.0, 4e18, 2e18, true},     {2.0, 0.5, 1e18, 4e18, false}};
+    for (const Cs& c : cs) {
+      int ec = 0;
+      PathD in{PointD(0.0, 0.0), PointD(c.x, c.y), PointD(1.0, 2.0)};
+      Path64 r;
+      std::string got = outcome([&] { r = ScalePath<int64_t, double>(in, c.sx, c.sy, ec); return std::string(r.empty() ? "empty" : "ran"); });
+      stat(c.oor ? "reporting.scalepath.two_scales.out_of_range" : "reporting.scalepath.two_scales.in_range");
+      bool reported = got == "threw 64" || (!EXC && got == "empty" && (ec & 64));
+      std::string d = "ScalePath<int64_t,double>({(0,0),(" + hexd(c.x) + "," + hexd(c.y) + "),(1,2)}, sx=" + hexd(c.sx) + ", sy=" + hexd(c.sy) + ") -> " + got + " code " + std::to_string(ec);
+      if (c.oor && !reported) emitF("scalepath.two_scales.range", "out-of-range coordinate not reported: " + d);
+      if (!c.oor && (got != "ran" || ec != 0 || r.size() != 3 || r[1].x != (int64_t)std::round(c.x * c.sx) || r[1].y != (int64_t)std::round(c.y * c.sy)))
+        emitF("scalepath.two_scales.in_range", "in-range input not scaled as x*sx, y*sy: " + d);
+    }
+  }
   // zero scale, odd coordinate count
   for (int sx = 0; sx < 2; ++sx) for (int sy = 0; sy < 2; ++sy) {
     int ec = 0;
@@ -167,13 +188,41 @@ int main(int argc, char** argv) {
     }
     ClipType ct = CTS[g.next() % 5]; FillRule fr = FRS[g.next() % 4];
     Clipper64 cl; cl.PreserveCollinear(g.coin()); cl.AddSubject(s); cl.AddOpenSubject(o); cl.AddClip(c);
+    // the solution containers arrive holding stale paths (a caller re-using them): nothing of that may survive an Execute
+    const Path64 junk{Point64(700000001, 700000003), Point64(700000002, 700000003), Point64(700000001, 700000005)};
+    auto has_junk = [&](const Paths64& ps) { for (auto& p : ps) if (p == junk) return true; return false; };
+    bool prefilled = g.coin();
     Paths64 sol, solo;
+    if (prefilled) { sol.push_back(junk); solo.push_back(junk); solo.push_back(junk); stat("success.prefilled_containers"); }
     bool ok;
     if (g.coin()) ok = cl.Execute(ct, fr, sol, solo); else { PolyTree64 t; ok = cl.Execute(ct, fr, t, solo); sol = PolyTreeToPaths64(t); }
     stat("success.executions");
     stat("success.kind." + std::to_string(kind));
     if (!ok) emitF("execute-returned-false", "ct=" + std::to_string((int)ct) + " fr=" + std::to_string((int)fr) + " subj=" + S(s) + " open=" + S(o) + " clip=" + S(c));
     if (ct == ClipType::NoClip) { stat("success.noclip"); if (!sol.empty() || !solo.empty()) emitF("noclip-not-empty", "subj=" + S(s) + " clip=" + S(c)); }
+    if (has_junk(sol) || has_junk(solo)) emitF("stale-solution-kept", "Clipper64 ct=" + std::to_string((int)ct) + " subj=" + S(s) + " open=" + S(o) + " clip=" + S(c));
+    if (kind != 0) {   // (general-position inputs reach 2^60: out of ClipperD's range once scaled)
+      // the same through ClipperD (all four Execute overloads), containers pre-filled
+      int prec = (int)g.range(0, 2);
+      auto toD = [&](const Paths64& ps) { PathsD r; for (auto& p : ps) { PathD q; for (auto& v : p) q.emplace_back((double)v.x, (double)v.y); r.push_back(q); } return r; };
+      const PathD junkD{PointD(700000001.0, 700000003.0), PointD(700000002.0, 700000003.0), PointD(700000001.0, 700000005.0)};
+      auto has_junkD = [&](const PathsD& ps) { for (auto& p : ps) if (p == junkD) return true; return false; };
+      bool with_open = g.coin();
+      ClipperD cd(prec); cd.AddSubject(toD(s)); if (with_open) cd.AddOpenSubject(toD(o)); cd.AddClip(toD(c));
+      PathsD sd{junkD}, od{junkD, junkD}; PolyTreeD td;
+      int ov = (int)(g.next() % 4); bool okd; bool used_od = false, used_sd = false;
+      if (ov == 0) { okd = cd.Execute(ct, fr, sd, od); used_od = used_sd = true; }
+      else if (ov == 1) { okd = cd.Execute(ct, fr, sd); used_sd = true; }
+      else if (ov == 2) { okd = cd.Execute(ct, fr, td, od); used_od = true; }
+      else okd = cd.Execute(ct, fr, td);
+      stat("success.executions.ClipperD.overload" + std::to_string(ov));
+      std::string d = "ClipperD(" + std::to_string(prec) + ") overload " + std::to_string(ov) + " ct=" + std::to_string((int)ct) + " fr=" + std::to_string((int)fr) + " subj=" + S(s) + (with_open ? " open=" + S(o) : std::string(" no open subjects")) + " clip=" + S(c);
+      if (cd.ErrorCode() == 0) {
+        if (!okd) emitF("execute-returned-false", d);
+        if (ct == ClipType::NoClip && ((used_sd && !sd.empty()) || (used_od && !od.empty()) || (!used_sd && td.Count() != 0))) emitF("noclip-not-empty", d);
+        if ((used_sd && has_junkD(sd)) || (used_od && has_junkD(od))) emitF("stale-solution-kept", d);
+      } else stat("success.ClipperD.range_error");
+    }
   }
   // clippers fed from a ReuseableDataContainer64 (AddReuseableData marks the object "not yet succeeded" until the next Reset)
   for (int i = 0; i < (thorough ? 400 : 60); ++i) {
